@@ -7,7 +7,7 @@ case = {
              datum: null | ['hash', hex32] | ['inline', hexcbor], script: sid | null, chain: bool}],
   ops: [ ['input', uid] | ['sinput', uid, src, datum_hexcbor|null, rdm|null] | ['mint', src, rdm|null]
        | ['wdrl', src, rdm|null] | ['cert', src, rdm|null] | ['addcert', {cred_script: bool, cred: hex28, pool: hex28}]
-       | ['outdatum', hexcbor] | ['native', [sid, ...]] ],
+       | ['outdatum', hexcbor] ],   native: [sid, ...] (the native_scripts field),
          src = ['none'] | ['utxo', uid] | ['script', sid];   rdm = {rid, tag: null|int, data: hexcbor, units: null|[mem, steps]}
   mint: [[policy hex28, [[name hex, qty], ...]], ...] (dict order),  wdrl: [[account hex29, coin], ...] (dict order),
   build: {change: hex28 key hash, use_map: bool, vstart: null|int, ttl: null|int, off_start: null|int, off_ttl: null|int,
@@ -39,7 +39,7 @@ def rid_of(data):
     if isinstance(data, int):
         return data
     if isinstance(data, cbor2.CBORTag):
-        return rid_of(data.value)
+        return rid_of(data.value[1] if data.tag == 102 else data.value)
     if isinstance(data, dict):
         return rid_of(next(iter(data.keys())))
     return rid_of(list(data)[0])
@@ -131,6 +131,8 @@ def mk_utxo(spec, scripts, net):
     elif d is not None:
         dat = RawCBOR(bytes.fromhex(d[1]))
     sc = scripts[spec['script']] if spec['script'] is not None else None
+    if type(sc) is bytes:
+        sc = PlutusV1Script(sc)                       # an output cannot hold a script of plain type bytes
     out = TransactionOutput(mk_addr(spec['script_addr'], spec['pay'], net), Value(spec['coin']),
                             datum_hash=dh, datum=dat, script=sc)
     return UTxO(TransactionInput.from_primitive([bytes.fromhex(spec['id']), spec['ix']]), out)
@@ -173,6 +175,8 @@ def handler(case, payload):
         for k, v in case['wdrl']:
             w[bytes.fromhex(k)] = v
         b.withdrawals = w
+    if case.get('native'):
+        b.native_scripts = [scripts[s] for s in case['native']]
     rids = {}
 
     def src(s):
@@ -218,7 +222,10 @@ def handler(case, payload):
             res.update(stage='ops', op=i, err=err_kind(e))
             return res
     change = mk_addr(False, B['change'], net)
+    import random
+    random.seed(case.get('seed', 0))                 # RandomImproveMultiAsset draws from the global generator
     try:
+        b.add_input_address(change)
         tx = b.build_and_sign([], change_address=change, auto_validity_start_offset=B['off_start'],
                               auto_ttl_offset=B['off_ttl'])
     except Exception as e:
